@@ -137,4 +137,28 @@ def plan_C16(res, binary, hooked, tier, seed):
     return ("call sequences write*/flush*/finish that keep calling after the first failure or after the declared size was reached; "
             "distinct = distinct (bytes, cuts, option)"), TRUSTED_STREAM
 
-PLANS = {"C01": plan_C01, "C05": plan_C05, "C08": plan_C08, "C09": plan_C09, "C10": plan_C10, "C15": plan_C15, "C16": plan_C16}
+TRUSTED_XZ = [
+    "TLC 1.8 / SANY; Xz.tla (field-level transcription of decode/xz.rs next to the declarative reading of xz-file-format 1.1.0)",
+    "harness .xz serialiser with bitwise CRC32/CRC64 (every well-formed file it writes must be accepted by lzma-rs and decode to the library contents, which is checked on every run; the payload library sizes are cross-checked against LibDef in MC_Xz.tla)",
+]
+
+def xz_layer(res, binary, hooked, tier, seed, prop, extra_args, limit):
+    mc = run_tlc("MC_Xz", tq(tier, "MC_Xz_quick.cfg", "MC_Xz_thorough.cfg"), "%s_xz" % prop, workers=tq(tier, 12, 14),
+                 timeout=tq(tier, 900, 10800), coverage=False)
+    res.add_tlc(mc, "every file of 0..2 blocks over the payload library x check ids x size-field presence x header sizes, well-formed or with one mutated field: PadLemma, AcceptsWellFormed, AcceptImpliesIntegrity, UnsupportedRefused, SinkOnlyVerified, MutationsAreCaught, NoWrap")
+    rep = run_harness(binary, ["xz", "--property", prop, "--seed", seed, "--export", mc["out"], "--limit", limit] + extra_args, "%s_xz" % prop)
+    res.add_harness(rep, "every exported abstract file selected for %s serialised with harness CRCs -> xz_decompress; verdict = model verdict, output = concatenation of block contents" % prop)
+
+def plan_C03(res, binary, hooked, tier, seed):
+    xz_layer(res, binary, hooked, tier, seed, "C03", [], tq(tier, 20000, 2000000))
+    return ("all well-formed supported files of the bounded model (block count 0..2, check None/CRC32/CRC64, size fields on/off, two header sizes, payload lengths mod 4 = 0..3, 1- and 2-byte varints); distinct = distinct file bytes"), TRUSTED_XZ
+
+def plan_C06(res, binary, hooked, tier, seed):
+    xz_layer(res, binary, hooked, tier, seed, "C06", ["--flip-files", tq(tier, 6, 60)], tq(tier, 60000, 3000000))
+    return ("all single-field mutations (CRCs repaired) of all files of the bounded model + every single-bit flip and every truncation of small CRC32/CRC64 files; distinct = distinct file bytes"), TRUSTED_XZ
+
+def plan_C18(res, binary, hooked, tier, seed):
+    xz_layer(res, binary, hooked, tier, seed, "C18", [], tq(tier, 60000, 3000000))
+    return ("files of the bounded model using an unsupported feature: check ids outside {None, CRC32, CRC64}, other filter ids, two filters, reserved bits in stream/block flags, trailing bytes / stream padding; distinct = distinct file bytes"), TRUSTED_XZ
+
+PLANS = {"C01": plan_C01, "C05": plan_C05, "C08": plan_C08, "C09": plan_C09, "C10": plan_C10, "C15": plan_C15, "C16": plan_C16, "C03": plan_C03, "C06": plan_C06, "C18": plan_C18}
